@@ -1,0 +1,660 @@
+//! Verification hooks (cargo feature `verif`).
+//!
+//! Thin public wrappers around crate-private items so that an out-of-tree harness can drive the
+//! real noise stream, framing, multiplexer, RPC service, connection pool and wire types.
+//! No logic lives here: every function forwards to the production code path.
+#![allow(missing_docs, clippy::missing_docs_in_private_items)]
+use std::{
+    collections::{BTreeMap, HashSet},
+    pin::Pin,
+    sync::Arc,
+    task::{Context, Poll},
+};
+
+use prost_reflect::ReflectMessage as _;
+use zksync_concurrency::{ctx, io, limiter, net};
+use zksync_consensus_crypto::ByteFmt as _;
+use zksync_consensus_roles::{node, validator};
+use zksync_protobuf::ProtoFmt;
+
+pub use crate::{consensus::verif as consensus, gossip::verif as gossip};
+use crate::{frame, metrics, mux, noise, pool, preface, rpc};
+
+// ------------------------------------------------------------------------------------------------
+// Noise
+
+/// Noise stream over an arbitrary transport.
+pub struct NoiseStream<S>(noise::Stream<S>);
+
+impl<S: io::AsyncRead + io::AsyncWrite + Unpin> NoiseStream<S> {
+    pub async fn client(ctx: &ctx::Ctx, s: S) -> ctx::Result<Self> {
+        Ok(Self(noise::Stream::client_handshake(ctx, s).await?))
+    }
+    pub async fn server(ctx: &ctx::Ctx, s: S) -> ctx::Result<Self> {
+        Ok(Self(noise::Stream::server_handshake(ctx, s).await?))
+    }
+    pub fn id(&self) -> Vec<u8> {
+        self.0.id().encode()
+    }
+}
+
+impl<S: io::AsyncRead + io::AsyncWrite + Unpin> io::AsyncRead for NoiseStream<S> {
+    fn poll_read(
+        mut self: Pin<&mut Self>,
+        cx: &mut Context<'_>,
+        buf: &mut io::ReadBuf<'_>,
+    ) -> Poll<io::Result<()>> {
+        Pin::new(&mut self.0).poll_read(cx, buf)
+    }
+}
+
+impl<S: io::AsyncRead + io::AsyncWrite + Unpin> io::AsyncWrite for NoiseStream<S> {
+    fn poll_write(
+        mut self: Pin<&mut Self>,
+        cx: &mut Context<'_>,
+        buf: &[u8],
+    ) -> Poll<io::Result<usize>> {
+        Pin::new(&mut self.0).poll_write(cx, buf)
+    }
+    fn poll_flush(mut self: Pin<&mut Self>, cx: &mut Context<'_>) -> Poll<io::Result<()>> {
+        Pin::new(&mut self.0).poll_flush(cx)
+    }
+    fn poll_shutdown(mut self: Pin<&mut Self>, cx: &mut Context<'_>) -> Poll<io::Result<()>> {
+        Pin::new(&mut self.0).poll_shutdown(cx)
+    }
+}
+
+/// Noise stream over a metered TCP stream (the flavour the handshake functions take).
+pub struct NoiseTcp(pub(crate) noise::Stream);
+
+/// Loopback TCP pair: (outbound end, inbound end), both not yet encrypted.
+pub struct Tcp(metrics::MeteredStream);
+
+pub async fn tcp_pair(ctx: &ctx::Ctx) -> ctx::Result<(Tcp, Tcp)> {
+    let addr = net::tcp::testonly::reserve_listener();
+    let mut listener = addr.bind(false).map_err(anyhow::Error::from)?;
+    let (a, b) = tokio::join!(
+        metrics::MeteredStream::connect(ctx, *addr),
+        metrics::MeteredStream::accept(ctx, &mut listener)
+    );
+    Ok((Tcp(a?), Tcp(b?)))
+}
+
+pub async fn tcp_connect(ctx: &ctx::Ctx, addr: std::net::SocketAddr) -> ctx::Result<Tcp> {
+    Ok(Tcp(metrics::MeteredStream::connect(ctx, addr).await?))
+}
+
+impl io::AsyncRead for Tcp {
+    fn poll_read(
+        mut self: Pin<&mut Self>,
+        cx: &mut Context<'_>,
+        buf: &mut io::ReadBuf<'_>,
+    ) -> Poll<io::Result<()>> {
+        Pin::new(&mut self.0).poll_read(cx, buf)
+    }
+}
+
+impl io::AsyncWrite for Tcp {
+    fn poll_write(
+        mut self: Pin<&mut Self>,
+        cx: &mut Context<'_>,
+        buf: &[u8],
+    ) -> Poll<io::Result<usize>> {
+        Pin::new(&mut self.0).poll_write(cx, buf)
+    }
+    fn poll_flush(mut self: Pin<&mut Self>, cx: &mut Context<'_>) -> Poll<io::Result<()>> {
+        Pin::new(&mut self.0).poll_flush(cx)
+    }
+    fn poll_shutdown(mut self: Pin<&mut Self>, cx: &mut Context<'_>) -> Poll<io::Result<()>> {
+        Pin::new(&mut self.0).poll_shutdown(cx)
+    }
+}
+
+impl NoiseTcp {
+    pub async fn client(ctx: &ctx::Ctx, s: Tcp) -> ctx::Result<Self> {
+        Ok(Self(noise::Stream::client_handshake(ctx, s.0).await?))
+    }
+    pub async fn server(ctx: &ctx::Ctx, s: Tcp) -> ctx::Result<Self> {
+        Ok(Self(noise::Stream::server_handshake(ctx, s.0).await?))
+    }
+    pub fn id(&self) -> Vec<u8> {
+        self.0.id().encode()
+    }
+    /// Client side of the real preface protocol (encryption choice, noise, endpoint choice).
+    pub async fn preface_connect(
+        ctx: &ctx::Ctx,
+        addr: std::net::SocketAddr,
+        consensus_endpoint: bool,
+    ) -> ctx::Result<Self> {
+        let ep = if consensus_endpoint {
+            preface::Endpoint::ConsensusNet
+        } else {
+            preface::Endpoint::GossipNet
+        };
+        Ok(Self(preface::connect(ctx, addr, ep).await?))
+    }
+    /// Server side of the real preface protocol. Returns true for the consensus endpoint.
+    pub async fn preface_accept(ctx: &ctx::Ctx, s: Tcp) -> ctx::Result<(Self, bool)> {
+        let (s, ep) = preface::accept(ctx, s.0).await?;
+        Ok((Self(s), ep == preface::Endpoint::ConsensusNet))
+    }
+}
+
+impl io::AsyncRead for NoiseTcp {
+    fn poll_read(
+        mut self: Pin<&mut Self>,
+        cx: &mut Context<'_>,
+        buf: &mut io::ReadBuf<'_>,
+    ) -> Poll<io::Result<()>> {
+        Pin::new(&mut self.0).poll_read(cx, buf)
+    }
+}
+
+impl io::AsyncWrite for NoiseTcp {
+    fn poll_write(
+        mut self: Pin<&mut Self>,
+        cx: &mut Context<'_>,
+        buf: &[u8],
+    ) -> Poll<io::Result<usize>> {
+        Pin::new(&mut self.0).poll_write(cx, buf)
+    }
+    fn poll_flush(mut self: Pin<&mut Self>, cx: &mut Context<'_>) -> Poll<io::Result<()>> {
+        Pin::new(&mut self.0).poll_flush(cx)
+    }
+    fn poll_shutdown(mut self: Pin<&mut Self>, cx: &mut Context<'_>) -> Poll<io::Result<()>> {
+        Pin::new(&mut self.0).poll_shutdown(cx)
+    }
+}
+
+// ------------------------------------------------------------------------------------------------
+// Wire types of this crate
+
+/// Every wire message type defined in this crate.
+#[derive(Debug, Clone, Copy, PartialEq, Eq, Hash)]
+pub enum Wire {
+    PrefaceEncryption,
+    PrefaceEndpoint,
+    MuxHandshake,
+    GossipHandshake,
+    ConsensusHandshake,
+    PingReq,
+    PingResp,
+    ConsensusReq,
+    ConsensusResp,
+    GetBlockReq,
+    GetBlockResp,
+    PushBlockStoreState,
+    PushTx,
+    PushValidatorAddrs,
+}
+
+impl Wire {
+    pub const ALL: [Wire; 14] = [
+        Wire::PrefaceEncryption,
+        Wire::PrefaceEndpoint,
+        Wire::MuxHandshake,
+        Wire::GossipHandshake,
+        Wire::ConsensusHandshake,
+        Wire::PingReq,
+        Wire::PingResp,
+        Wire::ConsensusReq,
+        Wire::ConsensusResp,
+        Wire::GetBlockReq,
+        Wire::GetBlockResp,
+        Wire::PushBlockStoreState,
+        Wire::PushTx,
+        Wire::PushValidatorAddrs,
+    ];
+}
+
+fn reencode<T: ProtoFmt>(bytes: &[u8]) -> anyhow::Result<Vec<u8>> {
+    Ok(zksync_protobuf::encode(&zksync_protobuf::decode::<T>(
+        bytes,
+    )?))
+}
+
+fn desc<T: ProtoFmt>() -> prost_reflect::MessageDescriptor {
+    T::Proto::default().descriptor()
+}
+
+macro_rules! wire_dispatch {
+    ($w:expr, $f:ident $(, $arg:expr)*) => {
+        match $w {
+            Wire::PrefaceEncryption => $f::<preface::Encryption>($($arg),*),
+            Wire::PrefaceEndpoint => $f::<preface::Endpoint>($($arg),*),
+            Wire::MuxHandshake => $f::<mux::verif::HandshakeMsg>($($arg),*),
+            Wire::GossipHandshake => $f::<crate::gossip::verif::HandshakeMsg>($($arg),*),
+            Wire::ConsensusHandshake => $f::<crate::consensus::verif::HandshakeMsg>($($arg),*),
+            Wire::PingReq => $f::<rpc::ping::Req>($($arg),*),
+            Wire::PingResp => $f::<rpc::ping::Resp>($($arg),*),
+            Wire::ConsensusReq => $f::<rpc::consensus::Req>($($arg),*),
+            Wire::ConsensusResp => $f::<rpc::consensus::Resp>($($arg),*),
+            Wire::GetBlockReq => $f::<rpc::get_block::Req>($($arg),*),
+            Wire::GetBlockResp => $f::<rpc::get_block::Resp>($($arg),*),
+            Wire::PushBlockStoreState => $f::<rpc::push_block_store_state::Req>($($arg),*),
+            Wire::PushTx => $f::<rpc::push_tx::Req>($($arg),*),
+            Wire::PushValidatorAddrs => $f::<rpc::push_validator_addrs::Req>($($arg),*),
+        }
+    };
+}
+
+macro_rules! wire_dispatch_async {
+    ($w:expr, $f:ident $(, $arg:expr)*) => {
+        match $w {
+            Wire::PrefaceEncryption => $f::<preface::Encryption>($($arg),*).await,
+            Wire::PrefaceEndpoint => $f::<preface::Endpoint>($($arg),*).await,
+            Wire::MuxHandshake => $f::<mux::verif::HandshakeMsg>($($arg),*).await,
+            Wire::GossipHandshake => $f::<crate::gossip::verif::HandshakeMsg>($($arg),*).await,
+            Wire::ConsensusHandshake => $f::<crate::consensus::verif::HandshakeMsg>($($arg),*).await,
+            Wire::PingReq => $f::<rpc::ping::Req>($($arg),*).await,
+            Wire::PingResp => $f::<rpc::ping::Resp>($($arg),*).await,
+            Wire::ConsensusReq => $f::<rpc::consensus::Req>($($arg),*).await,
+            Wire::ConsensusResp => $f::<rpc::consensus::Resp>($($arg),*).await,
+            Wire::GetBlockReq => $f::<rpc::get_block::Req>($($arg),*).await,
+            Wire::GetBlockResp => $f::<rpc::get_block::Resp>($($arg),*).await,
+            Wire::PushBlockStoreState => $f::<rpc::push_block_store_state::Req>($($arg),*).await,
+            Wire::PushTx => $f::<rpc::push_tx::Req>($($arg),*).await,
+            Wire::PushValidatorAddrs => $f::<rpc::push_validator_addrs::Req>($($arg),*).await,
+        }
+    };
+}
+
+impl Wire {
+    /// `encode(decode(bytes))` through the real conversions of the type.
+    pub fn reencode(self, bytes: &[u8]) -> anyhow::Result<Vec<u8>> {
+        wire_dispatch!(self, reencode, bytes)
+    }
+    /// Protobuf descriptor of the type.
+    pub fn descriptor(self) -> prost_reflect::MessageDescriptor {
+        wire_dispatch!(self, desc)
+    }
+}
+
+async fn recv_reencode<T: ProtoFmt>(
+    ctx: &ctx::Ctx,
+    s: &mut (impl io::AsyncRead + Unpin),
+    max_size: usize,
+) -> ctx::Result<Vec<u8>> {
+    Ok(zksync_protobuf::encode(
+        &frame::recv_proto::<T, _>(ctx, s, max_size).await?,
+    ))
+}
+
+/// The real `frame::recv_proto` for the given type; returns the re-encoded message.
+pub async fn frame_recv<S: io::AsyncRead + Unpin>(
+    ctx: &ctx::Ctx,
+    s: &mut S,
+    w: Wire,
+    max_size: usize,
+) -> ctx::Result<Vec<u8>> {
+    wire_dispatch_async!(w, recv_reencode, ctx, s, max_size)
+}
+
+async fn send_decoded<T: ProtoFmt>(
+    ctx: &ctx::Ctx,
+    s: &mut (impl io::AsyncWrite + Unpin),
+    bytes: &[u8],
+) -> ctx::Result<()> {
+    let msg = zksync_protobuf::decode::<T>(bytes)?;
+    frame::send_proto(ctx, s, &msg).await
+}
+
+/// The real `frame::send_proto` of the message obtained by decoding `bytes`.
+pub async fn frame_send<S: io::AsyncWrite + Unpin>(
+    ctx: &ctx::Ctx,
+    s: &mut S,
+    w: Wire,
+    bytes: &[u8],
+) -> ctx::Result<()> {
+    wire_dispatch_async!(w, send_decoded, ctx, s, bytes)
+}
+
+// ------------------------------------------------------------------------------------------------
+// Multiplexer
+
+/// Multiplexer limits, see `mux::Config`.
+#[derive(Debug, Clone)]
+pub struct MuxConfig {
+    pub read_frame_size: u64,
+    pub read_buffer_size: u64,
+    pub read_frame_count: u64,
+    pub write_frame_size: u64,
+}
+
+impl MuxConfig {
+    /// The configuration used by the RPC services.
+    pub fn rpc() -> Self {
+        let c = rpc::MUX_CONFIG;
+        Self {
+            read_frame_size: c.read_frame_size,
+            read_buffer_size: c.read_buffer_size,
+            read_frame_count: c.read_frame_count,
+            write_frame_size: c.write_frame_size,
+        }
+    }
+}
+
+/// A capability endpoint of a multiplexer (accept or connect side).
+#[derive(Clone)]
+pub struct MuxQueue(Arc<mux::StreamQueue>);
+
+/// Transient stream.
+pub struct MuxStream {
+    read: Option<mux::ReadStream>,
+    write: Option<mux::WriteStream>,
+}
+
+/// Multiplexer under construction.
+pub struct Mux {
+    cfg: MuxConfig,
+    accept: BTreeMap<u64, Arc<mux::StreamQueue>>,
+    connect: BTreeMap<u64, Arc<mux::StreamQueue>>,
+}
+
+impl Mux {
+    pub fn new(cfg: MuxConfig) -> Self {
+        Self {
+            cfg,
+            accept: BTreeMap::new(),
+            connect: BTreeMap::new(),
+        }
+    }
+    /// Registers an accept-side capability.
+    pub fn accept(
+        &mut self,
+        ctx: &ctx::Ctx,
+        cap: u64,
+        max_streams: u32,
+        rate: limiter::Rate,
+    ) -> MuxQueue {
+        let q = mux::StreamQueue::new(ctx, max_streams, rate);
+        self.accept.insert(cap, q.clone());
+        MuxQueue(q)
+    }
+    /// Registers a connect-side capability.
+    pub fn connect(
+        &mut self,
+        ctx: &ctx::Ctx,
+        cap: u64,
+        max_streams: u32,
+        rate: limiter::Rate,
+    ) -> MuxQueue {
+        let q = mux::StreamQueue::new(ctx, max_streams, rate);
+        self.connect.insert(cap, q.clone());
+        MuxQueue(q)
+    }
+    /// Runs the real `Mux::run`. The error is rendered as text; `Err` is the normal way to end.
+    pub async fn run<S: io::AsyncRead + io::AsyncWrite + Send>(
+        self,
+        ctx: &ctx::Ctx,
+        transport: S,
+    ) -> Result<(), String> {
+        mux::Mux {
+            cfg: Arc::new(mux::Config {
+                read_frame_size: self.cfg.read_frame_size,
+                read_buffer_size: self.cfg.read_buffer_size,
+                read_frame_count: self.cfg.read_frame_count,
+                write_frame_size: self.cfg.write_frame_size,
+            }),
+            accept: self.accept,
+            connect: self.connect,
+        }
+        .run(ctx, transport)
+        .await
+        .map_err(|e| format!("{e:#}"))
+    }
+}
+
+impl MuxQueue {
+    /// Opens (or accepts) the next transient stream of this capability.
+    pub async fn open(&self, ctx: &ctx::Ctx) -> ctx::OrCanceled<MuxStream> {
+        let s = self.0.open(ctx).await?;
+        Ok(MuxStream {
+            read: Some(s.read),
+            write: Some(s.write),
+        })
+    }
+}
+
+impl MuxStream {
+    /// Reads until `n` bytes are available or end of stream.
+    pub async fn read_exact(&mut self, ctx: &ctx::Ctx, n: usize) -> anyhow::Result<Vec<u8>> {
+        let mut buf = noise::bytes::Buffer::new(n);
+        self.read
+            .as_mut()
+            .ok_or_else(|| anyhow::format_err!("read half closed"))?
+            .read_exact(ctx, &mut buf)
+            .await?;
+        Ok(buf.as_slice().to_vec())
+    }
+    pub async fn write_all(&mut self, ctx: &ctx::Ctx, data: &[u8]) -> anyhow::Result<()> {
+        self.write
+            .as_mut()
+            .ok_or_else(|| anyhow::format_err!("write half closed"))?
+            .write_all(ctx, data)
+            .await
+    }
+    pub async fn flush(&mut self, ctx: &ctx::Ctx) -> anyhow::Result<()> {
+        self.write
+            .as_mut()
+            .ok_or_else(|| anyhow::format_err!("write half closed"))?
+            .flush(ctx)
+            .await
+    }
+    /// Drops the write half (the peer sees end of stream after the data).
+    pub fn close_write(&mut self) {
+        self.write.take();
+    }
+    /// Drops the read half.
+    pub fn close_read(&mut self) {
+        self.read.take();
+    }
+    /// The real `frame::mux_recv_proto`; returns the re-encoded message.
+    pub async fn recv_msg(
+        &mut self,
+        ctx: &ctx::Ctx,
+        w: Wire,
+        max_size: usize,
+    ) -> anyhow::Result<Vec<u8>> {
+        async fn f<T: ProtoFmt>(
+            ctx: &ctx::Ctx,
+            r: &mut mux::ReadStream,
+            max_size: usize,
+        ) -> anyhow::Result<Vec<u8>> {
+            Ok(zksync_protobuf::encode(
+                &frame::mux_recv_proto::<T>(ctx, r, max_size).await?.0,
+            ))
+        }
+        let r = self
+            .read
+            .as_mut()
+            .ok_or_else(|| anyhow::format_err!("read half closed"))?;
+        wire_dispatch_async!(w, f, ctx, r, max_size)
+    }
+}
+
+// ------------------------------------------------------------------------------------------------
+// RPC service with the real ping server and a harness-supplied consensus handler
+
+/// Harness side of the consensus RPC server.
+#[async_trait::async_trait]
+pub trait ConsensusHandler: Send + Sync {
+    async fn handle(
+        &self,
+        ctx: &ctx::Ctx,
+        msg: validator::Signed<validator::ConsensusMsg>,
+    ) -> anyhow::Result<()>;
+    fn max_req_size(&self) -> usize;
+}
+
+struct ConsensusAdapter<'a>(&'a dyn ConsensusHandler);
+
+#[async_trait::async_trait]
+impl rpc::Handler<rpc::consensus::Rpc> for ConsensusAdapter<'_> {
+    async fn handle(
+        &self,
+        ctx: &ctx::Ctx,
+        req: rpc::consensus::Req,
+    ) -> anyhow::Result<rpc::consensus::Resp> {
+        self.0.handle(ctx, req.0).await?;
+        Ok(rpc::consensus::Resp)
+    }
+    fn max_req_size(&self) -> usize {
+        self.0.max_req_size()
+    }
+}
+
+/// Client handles of an `RpcService`.
+pub struct RpcClients {
+    ping: Option<rpc::Client<rpc::ping::Rpc>>,
+    consensus: Option<rpc::Client<rpc::consensus::Rpc>>,
+}
+
+impl RpcClients {
+    /// Creates clients; `None` rate = no client for that RPC.
+    pub fn new(
+        ctx: &ctx::Ctx,
+        ping: Option<limiter::Rate>,
+        consensus: Option<limiter::Rate>,
+    ) -> Self {
+        Self {
+            ping: ping.map(|r| rpc::Client::new(ctx, r)),
+            consensus: consensus.map(|r| rpc::Client::new(ctx, r)),
+        }
+    }
+    pub async fn ping(&self, ctx: &ctx::Ctx, data: [u8; 32]) -> ctx::Result<[u8; 32]> {
+        let c = self.ping.as_ref().expect("no ping client");
+        Ok(c.call(ctx, &rpc::ping::Req(data), zksync_protobuf::kB)
+            .await?
+            .0)
+    }
+    pub async fn consensus(
+        &self,
+        ctx: &ctx::Ctx,
+        msg: validator::Signed<validator::ConsensusMsg>,
+    ) -> ctx::Result<()> {
+        let c = self.consensus.as_ref().expect("no consensus client");
+        c.call(ctx, &rpc::consensus::Req(msg), zksync_protobuf::kB)
+            .await?;
+        Ok(())
+    }
+}
+
+/// Runs the real `rpc::Service` over `transport`:
+/// the real ping server (if `ping_server`), the consensus server backed by `handler`
+/// (if given, with rate `consensus_rate`), and the given clients.
+pub async fn run_rpc_service<S: io::AsyncRead + io::AsyncWrite + Send>(
+    ctx: &ctx::Ctx,
+    transport: S,
+    ping_server: bool,
+    handler: Option<(&dyn ConsensusHandler, limiter::Rate)>,
+    clients: &RpcClients,
+) -> Result<(), String> {
+    let mut service = rpc::Service::new();
+    if ping_server {
+        service = service.add_server(ctx, rpc::ping::Server, rpc::ping::RATE);
+    }
+    if let Some((h, rate)) = handler {
+        service = service.add_server(ctx, ConsensusAdapter(h), rate);
+    }
+    if let Some(c) = &clients.ping {
+        service = service.add_client(c);
+    }
+    if let Some(c) = &clients.consensus {
+        service = service.add_client(c);
+    }
+    service
+        .run(ctx, transport)
+        .await
+        .map_err(|e| format!("{e:#}"))
+}
+
+/// Capability ids and in-flight limits of the RPCs: (name, capability, inflight).
+pub fn rpc_table() -> Vec<(&'static str, u64, u32)> {
+    fn e<R: rpc::Rpc>() -> (&'static str, u64, u32) {
+        (R::METHOD, R::CAPABILITY.id(), R::INFLIGHT)
+    }
+    vec![
+        e::<rpc::ping::Rpc>(),
+        e::<rpc::consensus::Rpc>(),
+        e::<rpc::get_block::Rpc>(),
+        e::<rpc::push_block_store_state::Rpc>(),
+        e::<rpc::push_tx::Rpc>(),
+        e::<rpc::push_validator_addrs::Rpc>(),
+    ]
+}
+
+/// The rate of the ping RPC that both sides hard-code.
+pub fn ping_rate() -> limiter::Rate {
+    rpc::ping::RATE
+}
+
+// ------------------------------------------------------------------------------------------------
+// Connection pool
+
+/// The real `PoolWatch` keyed by integers.
+pub struct Pool(pool::PoolWatch<u64, u64>);
+
+impl Pool {
+    pub fn new(allowed: HashSet<u64>, extra_limit: usize) -> Self {
+        Self(pool::PoolWatch::new(allowed, extra_limit))
+    }
+    pub async fn insert(&self, k: u64, v: u64) -> anyhow::Result<()> {
+        self.0.insert(k, v).await
+    }
+    pub async fn remove(&self, k: u64) {
+        self.0.remove(&k).await
+    }
+    pub fn current(&self) -> BTreeMap<u64, u64> {
+        self.0.current().into_iter().collect()
+    }
+}
+
+// ------------------------------------------------------------------------------------------------
+// Live node accessors
+
+impl crate::Network {
+    pub fn verif_gossip_inbound(&self) -> Vec<node::PublicKey> {
+        self.gossip.inbound.current().keys().cloned().collect()
+    }
+    pub fn verif_gossip_outbound(&self) -> Vec<node::PublicKey> {
+        self.gossip.outbound.current().keys().cloned().collect()
+    }
+    pub fn verif_consensus_inbound(&self) -> Option<Vec<validator::PublicKey>> {
+        Some(
+            self.consensus
+                .as_ref()?
+                .inbound
+                .current()
+                .keys()
+                .cloned()
+                .collect(),
+        )
+    }
+    pub fn verif_consensus_outbound(&self) -> Option<Vec<validator::PublicKey>> {
+        Some(
+            self.consensus
+                .as_ref()?
+                .outbound
+                .current()
+                .keys()
+                .cloned()
+                .collect(),
+        )
+    }
+    /// Blocks currently requested from peers.
+    pub fn verif_fetch_queue(&self) -> Vec<u64> {
+        self.gossip.fetch_queue.current_blocks()
+    }
+    /// Current content of the validator address book.
+    pub fn verif_validator_addrs(
+        &self,
+    ) -> Vec<Arc<validator::Signed<validator::NetAddress>>> {
+        self.gossip
+            .validator_addrs
+            .current()
+            .values()
+            .cloned()
+            .collect()
+    }
+}
